@@ -219,7 +219,13 @@ open MythVerif.Wsq (Elem Pid Holder)
    `op_flag` and the optional `USE_LOCK*` / `USE_THREAD_CS` mutexes (compiled out in the verified
    configuration, `C02_config_matches`).  Modelling simplifications: the releasing store of unlock
    is performed on memory right after its fence (DESIGN A.3); a re-centring `memmove` is one buffer
-   entry (justified in the header of the model file). -/
+   entry (justified in the header of the model file).  Granularity: one program counter per shared
+   access, with the mergers of the SC model (a lock holder's `b = q->base; q->base = b±1`, the
+   owner's `top = q->top - 1; q->top = top`, `q->base += offset; t = q->top`); pop's test
+   `if (top <= base)` compares two locals – the model re-reads the owner's view of `base` instead,
+   which is the value loaded at `po4` (the owner holds the lock and has no `base` store pending).
+   The per-program-counter lemma files `Proofs/WsQueueTsoFl*.lean` (drains) and
+   `Proofs/WsQueueTsoBnd[OT]*.lean` (bounds) are instances of one template each, generated by script. -/
 
 /-- **No loss, no duplication under x86-TSO store buffering (all queue operations).**
 In every reachable state of the store-buffer machine with the fences of the source, for every
